@@ -130,11 +130,16 @@ pub fn record_artifacts(
                 } else {
                     visited_sym_links.insert(String::from(&path));
                     // s_path: the actual path the symbolic link is pointing to
-                    let s_path =
-                        match std::fs::read_link(&path)?.as_path().to_str() {
-                            Some(str) => String::from(str),
-                            None => break,
-                        };
+                    let s_path = match std::fs::read_link(&path)?
+                        .as_path()
+                        .to_str()
+                    {
+                        Some(str) => String::from(str),
+                        None => return Err(Error::IllegalArgument(format!(
+                            "Invalid symlink target of {}; non-UTF-8 string",
+                            path
+                        ))),
+                    };
                     if symlink_metadata(s_path)?.file_type().is_file() {
                         let (virtual_target_path, hashes) = record_artifact(
                             &path,
